@@ -214,7 +214,7 @@ def file_cases(rng, n):
     """byte strings as .json/.toml/.yaml files and $parent graphs, through the real CLIs"""
     out = []
     seeds = ['{"a": 1}', '{"a": {"$merge": "b"}, "b": {"c": [1,2]}}', 'a = 1\n[b]\nc = "x"\n', 'a: 1\nb: [1, 2]\n', '[1, {"$output": true}]',
-             '{"$repeat": 3, "a": "$repeat"}', '{"a": "$\\"{a}\\""}', 'a: &x {b: 1}\nc: *x\n', 'a: !!binary aGk=\n', '---\n---\n', 'null', '"s"', '1e400']
+             '{"$repeat": 3, "a": "$repeat"}', 'a: &x [*x]\n', '&m {k: *m}\n', 'a: &m {<<: *m, b: 1}\nc: *m\n', '{"a": "$\\"{a}\\""}', 'a: &x {b: 1}\nc: *x\n', 'a: !!binary aGk=\n', '---\n---\n', 'null', '"s"', '1e400']
     for _ in range(n):
         r = rng.random()
         if r < 0.7:
@@ -281,7 +281,8 @@ def run(rep):
                 rep.violation(f"result differs from the (total) model: {kind[5:]}", {"case": c, "impl": g, "model": m})
             else:
                 rep.violation(f"implementation {kind} (the model terminates with {step_summary(m)})", {"case": c, "impl": g, "model": m})
-    fcs = file_cases(rng, nf)
+    fcs = [dict(c, files={k: v.encode("latin1") for k, v in c["files"].items()}) for _, c in load_corpus(PID) if "files" in c]
+    fcs += file_cases(rng, nf)
     res = pmap(run_file_case, fcs)
     for c, o in zip(fcs, res):
         rep.case({"files": {k: (v.decode("latin1") if isinstance(v, bytes) else v) for k, v in c["files"].items()}, "tool": c["tool"]}, True,
